@@ -32,6 +32,9 @@ struct Shared {
     /// Bytes the call in progress takes out of the buffer before it may re-post it.
     in_call_allow: Cell<u64>,
     repost_errors: RefCell<Vec<String>>,
+    /// A bulk read is in progress: it consumes and re-posts several times inside one call (what
+    /// it returns is compared afterwards), and the device delivers 4096-byte chunks while it waits.
+    bulk: Cell<bool>,
 }
 
 struct V {
@@ -55,7 +58,7 @@ fn device_fill(co: &CoRc, sh: &Shared, len: usize) -> bool {
 impl TransportVisitor for V {
     type Out = ();
     fn visit<T: Transport + 'static>(self, t: T, w: &DWorld) {
-        let sh = Rc::new(Shared { delivered: Cell::new(0), returned: Cell::new(0), tx: RefCell::new(vec![]), in_call_allow: Cell::new(0), repost_errors: RefCell::new(vec![]) });
+        let sh = Rc::new(Shared { delivered: Cell::new(0), returned: Cell::new(0), tx: RefCell::new(vec![]), in_call_allow: Cell::new(0), repost_errors: RefCell::new(vec![]), bulk: Cell::new(false) });
         let co: CoRc = {
             let sh = sh.clone();
             CoDevice::new(
@@ -64,7 +67,7 @@ impl TransportVisitor for V {
                     if q == 0 {
                         // A receive buffer is being posted: everything delivered so far must have
                         // been handed to the caller.
-                        if sh.delivered.get() != sh.returned.get() + sh.in_call_allow.get() {
+                        if !sh.bulk.get() && sh.delivered.get() != sh.returned.get() + sh.in_call_allow.get() {
                             sh.repost_errors.borrow_mut().push(format!("receive buffer (re)posted while {} of {} delivered bytes have not been returned to the caller", sh.delivered.get() - sh.returned.get(), sh.delivered.get()));
                         }
                         if chain.readable_len() != 0 || chain.writable_len() == 0 {
@@ -95,11 +98,15 @@ impl TransportVisitor for V {
                     co2.borrow_mut().livelock = Some(format!("busy-wait site {} exceeded 6 iterations", site));
                     panic!("LAB-LIVELOCK: console wait did not end");
                 }
-                if sh2.delivered.get() > sh2.returned.get() {
+                if sh2.delivered.get() > sh2.returned.get() && !sh2.bulk.get() {
                     // Data is already in the used ring; the driver will find it after this spin.
                     return;
                 }
-                let len = FILL_LENS[choose(FILL_LENS.len(), "chunk size delivered while the driver waits")];
+                if sh2.bulk.get() && co2.borrow_mut().held_count(0) == 0 {
+                    // (Bulk read: the chunk delivered at an earlier spin is still being consumed.)
+                    return;
+                }
+                let len = if sh2.bulk.get() { 4096 } else { FILL_LENS[choose(FILL_LENS.len(), "chunk size delivered while the driver waits")] };
                 if !device_fill(&co2, &sh2, len) {
                     co2.borrow_mut().livelock = Some("driver waits for received data but no receive buffer is posted".into());
                     panic!("LAB-LIVELOCK: driver waits with no receive buffer posted");
@@ -132,7 +139,7 @@ impl TransportVisitor for V {
         for step in 0..self.depth {
             co.borrow_mut().spins = 0;
             let avail = sh.delivered.get() - sh.returned.get();
-            let op = choose(17, "console operation");
+            let op = choose(18, "console operation");
             match op {
                 0..=2 => {
                     let ok = device_fill(&co, &sh, FILL_LENS[op]);
@@ -176,6 +183,25 @@ impl TransportVisitor for V {
                                 break;
                             }
                             viol("read-error", format!("read({}) -> {:?}", n, other));
+                        }
+                    }
+                }
+                17 => {
+                    // A bulk read of a whole page, possibly with part of an earlier chunk still
+                    // unread: the bytes come back in stream order.
+                    let mut buf = vec![0u8; 4096];
+                    sh.bulk.set(true);
+                    let r = crate::util::catch(|| embedded_io::Read::read_exact(&mut con, &mut buf));
+                    sh.bulk.set(false);
+                    tag("read_exact");
+                    match r {
+                        Ok(Ok(())) => check_bytes(&sh, &buf, true, "read_exact(4096)"),
+                        other => {
+                            if co.borrow().livelock.is_some() {
+                                viol("read-livelock", co.borrow().livelock.clone().unwrap());
+                                break;
+                            }
+                            viol("read-error", format!("read_exact(4096) -> {:?}", other.map(|r| r.map_err(|e| format!("{:?}", e)))));
                         }
                     }
                 }
@@ -377,6 +403,34 @@ impl TransportVisitor for VFmt {
             ("{:?}".into(), Box::new(|c| write!(c, "{:?}", "q\u{e9}\n"))),
             ("empty".into(), Box::new(|c| write!(c, "{}{}", "", "z"))),
         ];
+        // Pieces of every length 0..=300 between shorter pieces, before and after an argument:
+        // the transmit queue must receive the text in order whatever the lengths of the pieces.
+        for len in 0..=300usize {
+            let long: String = (0..len).map(|i| (b'a' + (i % 26) as u8) as char).collect();
+            for variant in 0..3 {
+                tx.borrow_mut().clear();
+                let (r, want) = match variant {
+                    0 => (crate::util::catch(std::panic::AssertUnwindSafe(|| write!(&mut con, "id={} msg={}\n", 7, long))), format!("id={} msg={}\n", 7, long)),
+                    1 => (crate::util::catch(std::panic::AssertUnwindSafe(|| write!(&mut con, "{}{}|{}", long, 'x', 12345))), format!("{}{}|{}", long, 'x', 12345)),
+                    _ => (crate::util::catch(std::panic::AssertUnwindSafe(|| write!(&mut con, "<{:>5}>{}<{}>", 3, long, long))), format!("<{:>5}>{}<{}>", 3, long, long)),
+                };
+                n += 1;
+                match r {
+                    Err(p) => {
+                        if out.len() < 4 {
+                            out.push(("fmt-write-panic".to_string(), format!("formatted write with a {}-byte piece panicked: {}", len, p)));
+                        }
+                    }
+                    Ok(r) => {
+                        if (r.is_err() || tx.borrow()[..] != *want.as_bytes()) && out.len() < 4 {
+                            out.push(("fmt-write".to_string(), format!("formatted write (variant {}) with a {}-byte piece -> {:?}; the transmit queue received {:?}, the formatted text is {:?}", variant, len, r, String::from_utf8_lossy(&tx.borrow()[..]), want)));
+                        }
+                    }
+                }
+            }
+            hal::with(|h| h.compact());
+            co.borrow_mut().served.clear();
+        }
         for (name, f) in cases {
             tx.borrow_mut().clear();
             let r = match crate::util::catch(std::panic::AssertUnwindSafe(|| f(&mut con))) {
